@@ -48,13 +48,13 @@ CREDITS = [1, 2, 3, 7, 256, 65535]
 
 def plan(tier, seed):
     cases = []
-    n_b2b = 120 if tier == 'quick' else 2400
-    n_raw = 60 if tier == 'quick' else 1200
+    n_b2b = 360 if tier == 'quick' else 2400
+    n_raw = 200 if tier == 'quick' else 1200
     for i in range(n_b2b):
         cases.append({'kind': 'b2b', 'seed': seed * 1000003 + i, 'tier': tier})
     for i in range(n_raw):
         cases.append({'kind': 'rawsrv' if i % 2 else 'rawcli', 'seed': seed * 1000003 + i, 'tier': tier})
-    for i in range(40 if tier == 'quick' else 600):
+    for i in range(120 if tier == 'quick' else 600):
         cases.append({'kind': 'rawmulti', 'seed': seed * 1000003 + i, 'tier': tier})
     for i in range(1 if tier == 'quick' else 4):
         cases.append({'kind': 'maxcredits', 'seed': seed * 1000003 + i, 'tier': tier, '_timeout': 600})
